@@ -15,6 +15,7 @@ import copy
 import json
 import keyword
 import os
+import re
 import shutil
 import tempfile
 import types
@@ -23,10 +24,67 @@ from . import coqterm as ct
 from . import gen_tree as gt
 
 
+LEAF_TAGS = ("__tuple__", "__set__", "__bytes__")
+
+
+def is_enc_leaf(x):
+    """a JSON-encoded non-JSON leaf: tuple, set, bytearray"""
+    return isinstance(x, dict) and len(x) == 1 and next(iter(x)) in LEAF_TAGS
+
+
+def jsonable(x):
+    """tuples, sets and bytearrays are not JSON: encode as one-key dicts"""
+    if isinstance(x, dict):
+        return {k: jsonable(v) for k, v in x.items()}
+    if isinstance(x, tuple):
+        return {"__tuple__": list(x)}
+    if isinstance(x, (set, frozenset)):
+        return {"__set__": sorted(x)}
+    if isinstance(x, bytearray):
+        return {"__bytes__": [chr(b) for b in x]}
+    return x
+
+
+def unjson(x):
+    if isinstance(x, dict):
+        if is_enc_leaf(x):
+            tag, v = next(iter(x.items()))
+            if tag == "__tuple__":
+                return tuple(v)
+            if tag == "__set__":
+                return set(v)
+            return bytearray("".join(v).encode())
+        return {k: unjson(v) for k, v in x.items()}
+    return x
+
+
 def _uj(x):
     """JSON case value -> fresh Python value: never hand the case's own (list)
     objects to the code under test (leaf appends would rewrite the recorded input)."""
-    return copy.deepcopy(gt.unjson(x))
+    return copy.deepcopy(unjson(x))
+
+
+def _for_coq(x):
+    """the model's leaves are None/bool/int/str/list/tuple: a set is shown as the
+    sorted list of its elements, a bytearray as the list of its characters (both
+    are mutable non-list leaves; the model needs no more than 'a mutable leaf')"""
+    if isinstance(x, dict):
+        return {k: _for_coq(v) for k, v in x.items()}
+    if isinstance(x, (set, frozenset)):
+        return sorted(x)
+    if isinstance(x, bytearray):
+        # elements: the generated one-character items and the three-character probes ("z07")
+        return re.findall(r"z\d\d|.", x.decode(), re.S)
+    return x
+
+
+def leaf(rng, kind):
+    """gt.leaf plus two mutable non-list kinds: e = set of strings, B = bytearray"""
+    if kind == "e":
+        return {"__set__": sorted(rng.sample(["a", "b", "c"], rng.randint(0, 2)))}
+    if kind == "B":
+        return {"__bytes__": list("ab"[:rng.randint(0, 2)])}
+    return jsonable(gt.leaf(rng, kind))
 
 SUFFIXES = ["yaml", "yml", "json", "py"]
 SAFE_KEYS = ["a", "b", "c", "x", "y", "foo", "bar", "ab", "k", "n"]
@@ -117,7 +175,7 @@ def stock_defaults():
     from invoke.config import Config
     d = copy.deepcopy(Config.global_defaults())
     d.pop("runners", None)
-    return gt.jsonable(d)
+    return jsonable(d)
 
 
 def py_overlay(a, b):
@@ -125,7 +183,7 @@ def py_overlay(a, b):
     stock-defaults case only"""
     out = copy.deepcopy(a)
     for k, v in (b or {}).items():
-        if isinstance(v, dict) and "__tuple__" not in v and isinstance(out.get(k), dict):
+        if isinstance(v, dict) and not is_enc_leaf(v) and isinstance(out.get(k), dict):
             out[k] = py_overlay(out[k], v)
         else:
             out[k] = copy.deepcopy(v)
@@ -169,7 +227,7 @@ def make_class(global_defaults=None, env_prefix=None, constant=False, stock=Fals
 def _rec(v):
     """a returned value as recorded: deep-copied (a list leaf handed out by the cache must not stay
     aliased in the observation)"""
-    return gt.jsonable(copy.deepcopy(gt.deep_view(v)))
+    return jsonable(copy.deepcopy(gt.deep_view(v)))
 
 
 PATH_OPS = ("get", "set", "del", "pop", "popitem", "clear", "setdefault", "update",
@@ -369,7 +427,12 @@ class Session:
                 return cfg, {"none": 1}
             if name == "leafappend":
                 lst = getattr(obj, op[3]) if fl == "attr" else obj[op[3]]
-                lst.append(op[4])
+                if isinstance(lst, set):
+                    lst.add(op[4])              # in-place edit of a mutable non-list leaf
+                elif isinstance(lst, bytearray):
+                    lst.extend(op[4].encode())
+                else:
+                    lst.append(op[4])
                 return cfg, {"none": 1}
         if name == "load_defaults_d":
             cfg.load_defaults(self.supply("load_defaults", op[1]), merge=False)
@@ -466,7 +529,7 @@ def mixed_view(x, depth=0):
 
 def view_of(cfg):
     # deep copy: list leaves of the cache must not stay aliased in the recorded observation
-    return gt.jsonable(copy.deepcopy(mixed_view(cfg)))
+    return jsonable(copy.deepcopy(mixed_view(cfg)))
 
 
 def sfx_of(path):
@@ -477,7 +540,7 @@ def sfx_of(path):
 
 def level_view(x):
     """a level attribute as a tree (None -> None leaf, as an empty YAML file gives)"""
-    return gt.jsonable(copy.deepcopy(x))
+    return jsonable(copy.deepcopy(x))
 
 
 # --------------------------------------------------------------------------
@@ -510,7 +573,7 @@ def instance(rng, sch, p_keep=0.6, kinds=None, same_kind=0.92):
             kind = v if (kinds is None or rng.random() < same_kind) else rng.choice(kinds)
             if kinds is not None and kind not in kinds:
                 kind = "l" if (kind == "t" and "l" in kinds) else rng.choice(kinds)
-            out[k] = gt.leaf(rng, kind)
+            out[k] = leaf(rng, kind)
     if rng.random() < 0.5:
         items = list(out.items())
         rng.shuffle(items)
@@ -539,6 +602,8 @@ def env_for(rng, sch, p_set=0.4, prefix="INVOKE_", p_bad=0.03):
     for p, sec in schema_paths(sch):
         if not sec and rng.random() < p_set:
             kind = sch_kind(sch, p)
+            if kind in "eB":
+                continue       # type(old)(string) would "convert": outside the modelled casting table
             if rng.random() < p_bad:
                 val = rng.choice(ENV_VALUES)
             elif kind == "i":
@@ -557,7 +622,7 @@ def env_for(rng, sch, p_set=0.4, prefix="INVOKE_", p_bad=0.03):
 # Coq printers
 # --------------------------------------------------------------------------
 def c_tree(t):
-    return ct.tree(_uj(t))
+    return ct.tree(_for_coq(_uj(t)))
 
 
 def c_fentry(e):
@@ -720,14 +785,14 @@ def c_outcome(o):
 # shrinking helpers
 # --------------------------------------------------------------------------
 def shrink_tree(t):
-    if not isinstance(t, dict) or "__tuple__" in t:
+    if not isinstance(t, dict) or is_enc_leaf(t):
         return
     for k in list(t):
         t2 = dict(t)
         del t2[k]
         yield t2
     for k, v in t.items():
-        if isinstance(v, dict) and "__tuple__" not in v:
+        if isinstance(v, dict) and not is_enc_leaf(v):
             for v2 in shrink_tree(v):
                 t2 = dict(t)
                 t2[k] = v2
